@@ -803,9 +803,15 @@ func writeEvidence(c *world.Check, prop, tier string, base uint64, b *builder, o
 		"assumptions": append([]string{"one worker process = one OS thread (GOMAXPROCS=1); schedules are decided by the seed", "sampling, not enumeration, unless exhaustive=true"}, c.Assumptions...),
 		"wall_s": wall, "violations": nviol,
 	}
-	os.MkdirAll(filepath.Join(verifDir, "evidence"), 0755)
+	// evidence describes /repo; a run against another tree (VERIF_REPO: seeded changes, experiments)
+	// must not overwrite it
+	evDir := filepath.Join(verifDir, "evidence")
+	if repoDir != "/repo" {
+		evDir = filepath.Join(verifDir, "evidence-alt")
+	}
+	os.MkdirAll(evDir, 0755)
 	jb, _ := json.MarshalIndent(ev, "", " ")
-	os.WriteFile(filepath.Join(verifDir, "evidence", prop+".json"), jb, 0644)
+	os.WriteFile(filepath.Join(evDir, prop+".json"), jb, 0644)
 }
 
 func summarize(p *world.Plan) any {
